@@ -133,6 +133,37 @@ fn check_triangle(ctx: &mut Ctx, v: [Point; 3]) -> FastSet<(i32, i32)> {
     if !ok {
         ctx.violation("triangle|1px-outline-is-not-the-three-edge-lines", case, || format!("outline has {} pixels", outline.len()));
     }
+    // (f) what draw() leaves on a target is the same coverage: on an unbounded target, and on
+    // bounded targets at non-zero origins whose edges coincide with or cut through the triangle
+    // exactly the part inside the target (filled and 1 px outline; every fourth case)
+    if (tv[0].0 + 3 * tv[1].1 + 5 * tv[2].0).rem_euclid(4) == 0 {
+        use egmon::target::{cut_boxes, restrict, unbounded_box, IterTarget, NativeTarget, PixMap};
+        ctx.eval();
+        for (what, want_set, style) in [("filled", &set, PrimitiveStyle::with_fill(BinaryColor::On)), ("1px-outline", &outline, PrimitiveStyle::with_stroke(BinaryColor::On, 1))] {
+            let mut want = PixMap::new();
+            for &(x, y) in want_set.iter() {
+                want.set(x, y, 1);
+            }
+            let mut boxes = vec![unbounded_box()];
+            if let Some(cut) = cut_boxes(&want) {
+                boxes.push(cut[(want.hash() / 7 % 5) as usize]);
+            }
+            for bx in boxes {
+                let mut a = IterTarget::<BinaryColor>::new(bx);
+                let mut b = NativeTarget::<BinaryColor>::new(bx);
+                let _ = t.into_styled(style).draw(&mut a);
+                let _ = t.into_styled(style).draw(&mut b);
+                let want_in = restrict(&want, &bx);
+                for (path, map) in [("draw_iter-only", &a.log.map), ("native", &b.log.map)] {
+                    if !map.same(&want_in) {
+                        ctx.violation(format!("triangle|draw-{}-differs-from-points-inside-the-target", what), || format!("{} on target box {:?}", case(), egmon::target::rt(&bx)), || format!("{} target: first difference {:?} (x, y, drawn, expected)", path, map.first_diff(&want_in)));
+                        break;
+                    }
+                }
+            }
+        }
+        ctx.count("triangles_drawn_on_targets", 1);
+    }
     ctx.count("triangle_points", pts.len() as u64);
     if !degenerate {
         ctx.nontrivial(mix(mix(mix(tv[0].0 as u64, tv[0].1 as u64), mix(tv[1].0 as u64, tv[1].1 as u64)), mix(tv[2].0 as u64, tv[2].1 as u64)));
